@@ -22,7 +22,8 @@ func mapInfoOf(mt *types.Map) mapInfo {
 	if ks == structSort || ks == tupleSort || vs == structSort || vs == tupleSort {
 		return mapInfo{}
 	}
-	k := sortKey(ks) + "_" + sortKey(vs)
+	// one set of components per map type: maps of different Go types can never alias
+	k := sanitize(shortType(mt))
 	return mapInfo{md: "MD_" + k, mv: "MV_" + k, ml: "ML_" + k, ks: ks, vs: vs, ok: true}
 }
 
